@@ -32,8 +32,16 @@ def rule_weight(ctx, TM):
     fn = TM.fn
     seen = set()
     for st in TM.sites:
+        if not st.regexes:
+            ctx.violation(rule, f"{fn.path}|no-regex|{st.kind}-{st.pair_variant}", f"{st.kind}({st.pair_variant}) is returned without a regex match "
+                          f"constraining the text (its weight tail is unconstrained)", fn=fn.path, file=fn.file, line=st.line)
         for lit in st.regexes:
             key = lit
+            if lit is None:
+                ctx.violation(rule, f"{fn.path}|unanalysable-regex|{st.kind}-{st.pair_variant}",
+                              f"{st.kind}({st.pair_variant}) is guarded by a regex outside the analysed subset (flags, wildcards, look-around…): its "
+                              f"weight language cannot be bounded", fn=fn.path, file=fn.file, line=st.line)
+                continue
             try:
                 r, pre, tail = tail_of(lit)
             except regexlang.Unsupported as e:
